@@ -160,9 +160,9 @@ Print Assumptions C11_consumer_pc_stable.
     "closed" (outside the property as worded; documented). *)
 Theorem C11_insert_close_overlap_example :
   exists s, run lstep l_init sch_overlap = Some s /\
-            l_hist s = [ERetIns 0 7 (IOk true); EIns 0 7 true; ERetNext NClosed; EClose;
-                        ECallNext; ECallIns 0 7] /\
-            q_queue (l_q s) = [7] /\ l_cp s = CIdle.
+            (l_hist s = [ERetIns 0 7 (IOk true); EIns 0 7 true; ERetNext NClosed; EClose;
+                         ECallNext; ECallIns 0 7] /\
+             q_queue (l_q s) = [7] /\ l_cp s = CIdle).
 Proof. exact insert_close_overlap_example. Qed.
 Print Assumptions C11_insert_close_overlap_example.
 
